@@ -495,7 +495,7 @@ func genMalformed(r *core.Rand, cases int, emit func([]string)) {
 
 func (P) Gen(r *core.Rand, tier string, emit func([]string)) {
 	if tier == "thorough" {
-		genExhaustive(r.Fork(), 14, 2, emit)
+		genExhaustive(r.Fork(), 14, 4, emit)
 		genMedium(r.Fork(), 48, 40, true, 40, emit)
 		genRandom(r.Fork(), 3000, 4, 300, emit)
 		genRandom(r.Fork(), 150, 3, 70000, emit)
@@ -503,9 +503,9 @@ func (P) Gen(r *core.Rand, tier string, emit func([]string)) {
 		genMalformed(r.Fork(), 3000, emit)
 		return
 	}
-	genExhaustive(r.Fork(), 12, 1, emit)
-	genMedium(r.Fork(), 16, 24, false, 6, emit)
-	genRandom(r.Fork(), 400, 4, 300, emit)
-	genRandom(r.Fork(), 12, 2, 70000, emit)
-	genMalformed(r.Fork(), 400, emit)
+	genExhaustive(r.Fork(), 13, 1, emit)
+	genMedium(r.Fork(), 24, 24, false, 8, emit)
+	genRandom(r.Fork(), 800, 4, 300, emit)
+	genRandom(r.Fork(), 16, 2, 70000, emit)
+	genMalformed(r.Fork(), 800, emit)
 }
